@@ -142,8 +142,10 @@ class Program:
             d = t["defs"][name]
             if isinstance(d, ast.FunctionDef):
                 return Func(d, env, self.it)
-            if any(isinstance(b, ast.Name) and (b.id.endswith(("Error", "Exception", "Warning"))) for b in d.bases):
+            if any(isinstance(b, ast.Name) and (b.id.endswith(("Error", "Exception", "Warning")) or b.id == "ErrorWithSource") for b in d.bases) or d.name == "ErrorWithSource":
                 return ExcCtor(d.name)  # exception classes are values of the exception model (name + message)
+            if any("Enum" in ast.unparse(b) for b in d.bases):
+                return self.make_enum(d)
             return self.make_class(d, env)
         if name in t["imports"]:
             return self.resolve_import(t["imports"][name], name)
@@ -152,6 +154,19 @@ class Program:
         if name.endswith("Error") or name.endswith("Warning") or name == "Exception":
             return ExcCtor(name)
         raise KeyError(name)
+
+    def make_enum(self, node):
+        """an enum class of the library as a real Python enum with the same members (values are constants in the source)"""
+        import enum
+
+        members = {}
+        for st in node.body:
+            if isinstance(st, ast.Assign) and len(st.targets) == 1 and isinstance(st.targets[0], ast.Name):
+                v = st.value
+                members[st.targets[0].id] = v.value if isinstance(v, ast.Constant) else len(members) + 1
+        base = enum.IntEnum if all(isinstance(v, int) for v in members.values()) else enum.Enum
+        e = base(node.name, members)
+        return _ModuleNS({k: e[k] for k in members} | {"__members__": dict(e.__members__)})
 
     def make_class(self, node, env):
         # bases are looked up in env (and thereby resolved across modules) by Interp.make_class
